@@ -5,6 +5,7 @@ import PhyloModel.Matrix.Store
 import PhyloModel.Matrix.Phylip
 import PhyloModel.Dist.Fold
 import PhyloModel.Matrix.Upgma
+import PhyloModel.Matrix.UpgmaClamp
 import PhyloModel.Misc.Generators
 import PhyloModel.Misc.Layout
 import PhyloModel.Arena.Cli
@@ -340,7 +341,7 @@ def dispatch (st : DState) (fs : List String) : DState × String :=
   | ["up.run", taxa, cells] =>
     match decTaxa taxa, (if cells == "_" then some [] else (words cells).mapM decRat) with
     | some t, some c =>
-      match UPG.upgma t c.toArray with
+      match UPG.upgmaC t c.toArray with
       | .ok (r, m, tie, dy) => (st, s!"ok {encURose r} {match m with | some g => encRat g | none => "-"} {encBool tie} {encBool dy}")
       | .err k => (st, "err " ++ k)
       | .panic => (st, "panic")
